@@ -14,7 +14,7 @@ import (
 func init() {
 	register(&Prop{
 		ID: "C13", Level: "exploration",
-		Rule: "one case = a router with 0-5 global middleware, each registered with WithMiddleware (all handlers) or WithMiddlewareFor with a drawn scope mask (an empty one now and then: wraps nothing) (sub-batch: DefaultOptions prepended), 2-5 routes with 0-3 route-specific middleware each, and all five handler kinds reachable (route, no-route, no-method, redirect, options), plus two routes that ignore trailing slashes reached directly and with the slash toggled. Every middleware appends its identifier to a per-request trace on entry. Sequential clauses: for each handler kind the trace equals the global middleware whose scope includes the kind, in registration order, followed for routes by the route-specific ones, each exactly once; Update replaces the route-specific part; Route.Handle runs the bare handler; Route.HandleMiddleware runs only the route-specific chain. Concurrent clause: 2-3 tasks create routes through the public Router.NewRoute (then HandleRoute/UpdateRoute) with different route-specific middleware under the seeded scheduler (yield point between applying the options and composing the chain), mixed with tasks that go through Handle/Update; afterwards every route's trace must be its own; in HB mode the same schedules run under the race detector. Non-trivial: at least 3 global middleware or a context switch inside NewRoute; distinct = hash of (configuration, programs, schedule).",
+		Rule: "one case = a router with 0-5 global middleware, each registered with WithMiddleware (all handlers) or WithMiddlewareFor with a drawn scope mask (an empty one now and then: wraps nothing) (sub-batch: DefaultOptions prepended), 2-5 routes with 0-3 route-specific middleware each, and all five handler kinds reachable (route, no-route, no-method, redirect, options), plus two routes that ignore trailing slashes reached directly and with the slash toggled. Every middleware appends its identifier to a per-request trace on entry. Sequential clauses: for each handler kind the trace equals the global middleware whose scope includes the kind, in registration order, followed for routes by the route-specific ones, each exactly once; Update replaces the route-specific part; Route.Handle runs the bare handler; Route.HandleMiddleware runs only the route-specific chain. Concurrent clause: 2-3 tasks create routes through the public Router.NewRoute (then HandleRoute/UpdateRoute) with different route-specific middleware under the seeded scheduler (yield point between applying the options and composing the chain), mixed with tasks that go through Handle/Update; afterwards every route's trace must be its own; in HB mode the same schedules run under the race detector. One time in three the route objects are also registered (HandleRoute) or swapped in (UpdateRoute) on a second router with other global middleware; the first router's chains must stay as they were. Non-trivial: at least 3 global middleware or a context switch inside NewRoute; distinct = hash of (configuration, programs, schedule).",
 		Run:  runC13, HBRun: runC13,
 		Quick: 40000, Thorough: 8000000, QuickHB: 6000, ThoroughHB: 800000,
 		Real: []string{"fox.New option processing, applyMiddleware/applyRouteMiddleware, Router.NewRoute, route chains, ServeHTTP dispatch"},
@@ -343,6 +343,42 @@ func runC13(src sim.Source, o Opts) *Result {
 		}
 		if res.failed() {
 			return res
+		}
+	}
+	// the very same *Route object registered (or swapped in by UpdateRoute) on another router that has other global
+	// middleware: creating a route THERE never changes the chain the route runs with HERE (what the other router does
+	// with a foreign route is not judged)
+	if src.Intn("foreignrouter", 3) == 2 {
+		res.inc("route_object_registered_on_a_second_router")
+		other, err := world.Build(world.Cfg{NoMethod: true, AutoOptions: true, GlobalTS: globalTS, NoRedirectSpy: true}, fox.WithMiddleware(traceMW(150)), fox.WithMiddlewareFor(fox.RouteHandler, traceMW(151)))
+		if err != nil {
+			res.Trouble = err.Error()
+			return res
+		}
+		for i, r := range routes {
+			rt := w.R.Route(r.Method, r.Pattern)
+			if rt == nil {
+				res.fail("C13/lookup", "route %s not found by Route", r.Pattern)
+				return res
+			}
+			var err error
+			if i%2 == 0 {
+				err = other.R.HandleRoute(r.Method, rt)
+			} else {
+				if _, err = other.R.Handle(r.Method, r.Pattern, world.Handler(99)); err == nil {
+					err = other.R.UpdateRoute(r.Method, rt)
+				}
+			}
+			if err != nil {
+				res.Trouble = "second router: " + err.Error()
+				return res
+			}
+			other.Serve(world.Probe{Method: "GET", Path: strings.Replace(r.Pattern, "{x}", "v", 1)}, "", "", nil)
+		}
+		for _, r := range routes {
+			if !check("after the same route object was registered on another router", world.Probe{Method: "GET", Path: strings.Replace(r.Pattern, "{x}", "v", 1)}, model.KRoute, r.MW) {
+				return res
+			}
 		}
 	}
 	// Update replaces the route-specific middleware
